@@ -54,10 +54,10 @@ func (t tuple) String() string {
 // valid: the reference validity rule (device and owner keys are of the same kind in this deployment): RSA
 // attestation keys may use every key exchange; P-256 only ECDH256; P-384 only ECDH384.
 func (t tuple) valid() bool {
-	switch t.kind.Alg {
-	case "ec256":
+	switch t.kind.Type {
+	case protocol.Secp256r1KeyType:
 		return t.suite == kex.ECDH256Suite
-	case "ec384":
+	case protocol.Secp384r1KeyType:
 		return t.suite == kex.ECDH384Suite
 	}
 	return true
@@ -310,9 +310,27 @@ func main() {
 			sel = append(sel, tuple{pad, keys.KindByName("ec256"), protocol.X509KeyEnc, kex.ECDH256Suite, c, pad%2 == 0, true})
 		}
 	}
+	// boundary keys: EC public points with a leading zero byte in X or in Y, in every encoding (an encoder that
+	// strips leading zeros next to a parser that wants fixed widths only disagrees for such keys)
+	nBoundary := 0
+	for _, k := range keys.BoundaryKinds {
+		for _, enc := range k.Encodings() {
+			for _, reuse := range []bool{false, true} {
+				for _, bypass := range []bool{false, true} {
+					c := kex.A128GcmCipher
+					if reuse != bypass {
+						c = kex.CoseAes256CbcCipher
+					}
+					sel = append(sel, tuple{0, k, enc, lab.DefaultSuite(k), c, reuse, bypass})
+					nBoundary++
+				}
+			}
+		}
+	}
+	r.Set("boundary_key_tuples", nBoundary)
 	r.Set("product_size", len(all))
 	r.Set("tuples_run", len(sel))
-	r.Rule(fmt.Sprintf("the product {6 key types} x {X509, X5Chain, COSE(EC only)} x {6 key exchanges} x {7 cipher suites} x {reuse, replace} x {via TO0/TO1, rendezvous bypass} has %d tuples; both tiers run all of them. Each tuple runs DI, extension, [TO0, TO1], TO2 (credential through its blob encoding), resale to a second owner and a second TO2 over the real HTTP transport and handler. Valid tuples (reference rule: RSA attestation keys allow every key exchange, P-256 only ECDH256, P-384 only ECDH384) must complete every step, credential and stored voucher must agree (header MAC, key hash, GUID, rendezvous info, certificate hash), every body from SetupDevice on must be a COSE_Encrypt0 / COSE_Mac0 carrying the configured cipher's algorithm id; plus, for every cipher suite, 15 runs with the service-info plaintext lengths shifted by 1..15 bytes (block alignment); invalid tuples must fail on the device, produce no SetupDevice and leave the voucher untouched; the HelloDevice on the wire must name the configured suites. distinct = tuples with distinct outcome.", len(all)))
+	r.Rule(fmt.Sprintf("the product {6 key types} x {X509, X5Chain, COSE(EC only)} x {6 key exchanges} x {7 cipher suites} x {reuse, replace} x {via TO0/TO1, rendezvous bypass} has %d tuples; both tiers run all of them. Each tuple runs DI, extension, [TO0, TO1], TO2 (credential through its blob encoding), resale to a second owner and a second TO2 over the real HTTP transport and handler. Valid tuples (reference rule: RSA attestation keys allow every key exchange, P-256 only ECDH256, P-384 only ECDH384) must complete every step, credential and stored voucher must agree (header MAC, key hash, GUID, rendezvous info, certificate hash), every body from SetupDevice on must be a COSE_Encrypt0 / COSE_Mac0 carrying the configured cipher's algorithm id; plus 48 tuples with keys whose public point has a leading zero byte in X or Y (all three encodings); plus, for every cipher suite, 15 runs with the service-info plaintext lengths shifted by 1..15 bytes (block alignment); invalid tuples must fail on the device, produce no SetupDevice and leave the voucher untouched; the HelloDevice on the wire must name the configured suites. distinct = tuples with distinct outcome.", len(all)))
 	var wg sync.WaitGroup
 	sem := make(chan struct{}, 16)
 	for _, t := range sel {
